@@ -179,3 +179,12 @@ pub fn argon_rows() -> Vec<ArgonRow> {
         })
         .unwrap_or_default()
 }
+
+/// For every RSA-4096 key of the sealing pool a random r (as k1.seal draws it) whose r^e mod n starts with
+/// two zero bytes: one seal in 65 536 otherwise (made once by `paseto-sim selftest grind-rsa-zeros`, 44 s).
+pub const RSA4096_C_TWO_ZERO_BYTES_JSON: &str = include_str!("../../fixtures/rsa4096_c_two_zero_bytes.json");
+
+pub fn rsa4096_r_for_two_zero_bytes(idx: usize) -> Option<String> {
+    let v: serde_json::Value = serde_json::from_str(RSA4096_C_TWO_ZERO_BYTES_JSON).ok()?;
+    v.get((idx % V1_PKE_POOL).to_string())?.as_str().map(|s| s.to_string())
+}
